@@ -204,8 +204,13 @@ func escSegment(i int) string {
 		}
 		// quick: the first two hex digits from the interesting ranges (high / low
 		// surrogates, control, Latin-1), the last two symbolic
-		pre := []string{"d8", "dc", "00", "e9", "DB"}
-		return "\\u" + pre[vrtChoose("hexprefix", len(pre))] + vrtStrN("h", 2, smASCII)
+		pre := []string{"d8", "dc", "00", "e9", "DB", ""}
+		k := vrtChoose("hexprefix", len(pre))
+		if pre[k] == "" {
+			// any character in the first position, then a fixed tail
+			return "\\u" + vrtStrN("h", 1, smASCII) + "041"
+		}
+		return "\\u" + pre[k] + vrtStrN("h", 2, smASCII)
 	default:
 		return "\\u" + vrtStr("t", 3, smASCII)
 	}
